@@ -32,7 +32,14 @@ import (
 func init() {
 	Registry["C10"] = &Oracle{Run: runC10, Lines: historyLines(checkC10History)}
 	Registry["C14"] = &Oracle{Run: runC14, Lines: historyLines(checkC14History)}
-	Registry["C15"] = &Oracle{Run: runC15, Lines: historyLines(checkC15History)}
+	Registry["C15"] = &Oracle{Run: runC15, Lines: func(lines []string, rep *Reporter) {
+		historyLines(checkC15History)(lines, rep)
+		for _, l := range lines {
+			if t := strings.Split(l, " "); len(t) == 4 && t[0] == "Y" && t[2] == "packobs" {
+				checkTrackReadOnly(rep, t[1], t[3])
+			}
+		}
+	}}
 }
 
 // ---------------------------------------------------------------- helpers
@@ -1294,12 +1301,78 @@ func checkCallerMemory(rep *Reporter, c *hcase, r *gen.Rng, g *gen.FieldGen) {
 	})
 }
 
+// checkReturnedStable: the bytes a Pack returned belong to the caller: no later operation on
+// the message (another Pack after the content changed, JSON, Clone, Describe, Unpack) may change
+// them.
+func checkReturnedStable(rep *Reporter, c *hcase, r *gen.Rng) {
+	later := randomLater(c, r)
+	ops := with(with(c.ops, "pack"), later...)
+	ops = with(ops, "pack", "json", "clone", "desc")
+	line := c.line(ops, "")
+	safely(rep, line, func() {
+		st := c.replay(ops)
+		rep.Case(line)
+		if i := st.Changed(); i >= 0 {
+			rep.Viol("the bytes returned by an earlier Pack were changed by a later operation on the message", line,
+				fmt.Sprintf("result of Pack number %d", i+1))
+		}
+	})
+}
+
+// checkTrackReadOnly: Pack, String, Bytes and JSON encoding of a track field leave its components
+// as they were set (a read-only operation does not change what a later Unmarshal / JSON reports).
+func checkTrackReadOnly(rep *Reporter, specS, valS string) {
+	line := "Y " + specS + " packobs " + valS
+	st, ok1 := impl.ParseTree(specS)
+	vt, ok2 := impl.ParseTree(valS)
+	if !ok1 || !ok2 {
+		return
+	}
+	kind, spec, ok := impl.TrackSpecOfTree(st)
+	if !ok {
+		return
+	}
+	safely(rep, line, func() {
+		f := impl.NewTrack(kind, spec)
+		if !impl.SetTrack(f, kind, vt) {
+			return
+		}
+		before := impl.TrackTree(f).String()
+		j0, _ := json.Marshal(f)
+		for _, op := range []string{"Pack", "String", "Bytes", "MarshalJSON"} {
+			switch op {
+			case "Pack":
+				_, _ = f.Pack()
+			case "String":
+				_, _ = f.String()
+			case "Bytes":
+				_, _ = f.Bytes()
+			default:
+				_, _ = json.Marshal(f)
+			}
+			after := impl.TrackTree(f).String()
+			if after != before {
+				rep.Case(line)
+				rep.Viol("a read-only operation ("+op+") changed the components of a track field", line,
+					fmt.Sprintf("before %s after %s", before, after))
+				return
+			}
+		}
+		j1, _ := json.Marshal(f)
+		rep.Case(line)
+		if string(j0) != string(j1) {
+			rep.Viol("the JSON of a track field differs before and after Pack / String / Bytes", line, fmt.Sprintf("%s vs %s", j0, j1))
+		}
+	})
+}
+
 func checkC15History(rep *Reporter, c *hcase) {
 	r := gen.NewRng(uint64(len(c.ops))*7919 + uint64(len(c.specS)))
 	checkDeterminism(rep, c)
 	checkReadOnly(rep, c, r)
 	checkCloneIndependent(rep, c, r)
 	checkPopulationOrder(rep, c, r)
+	checkReturnedStable(rep, c, r)
 }
 
 func runC15(t gen.Tier, r *gen.Rng, rep *Reporter) {
@@ -1309,6 +1382,7 @@ func runC15(t gen.Tier, r *gen.Rng, rep *Reporter) {
 		checkReadOnly(rep, c, r)
 		checkCloneIndependent(rep, c, r)
 		checkPopulationOrder(rep, c, r)
+		checkReturnedStable(rep, c, r)
 		checkCallerMemory(rep, c, r, g)
 	})
 	// composites with 2..12 subfields under each sort function: Pack / JSON repeated
@@ -1338,6 +1412,14 @@ func runC15(t gen.Tier, r *gen.Rng, rep *Reporter) {
 			rep.Case(line)
 		})
 	}
+	// track fields: read-only operations leave the components alone
+	nTrack := 0
+	gen.Dispatch("Y", gen.Tier{}, gen.NewRng(r.U64()), func(l string) {
+		if f := strings.Split(l, " "); len(f) == 4 && f[2] == "packobs" && nTrack < t.N(1500, 20000) {
+			nTrack++
+			checkTrackReadOnly(rep, f[1], f[3])
+		}
+	})
 	rep.Sample("H <spec> <history> => 8 runs identical; read-only ops pure; clones independent; population order irrelevant; caller slices (sentinel spare capacity) untouched")
 }
 
